@@ -423,7 +423,7 @@ var ruleA5 = &Rule{
 							if lc, ok := y.(*ssa.Call); ok {
 								if bi, ok := lc.Common().Value.(*ssa.Builtin); ok && bi.Name() == "len" {
 									la := lc.Common().Args[0]
-									if la == base || canon(la) == canon(base) || (func() bool { s, ok := la.(*ssa.Slice); return ok && s.X == base })() {
+									if la == base || canon(la) == canon(base) || sameExpr(la, base, 0) || (func() bool { s, ok := la.(*ssa.Slice); return ok && s.X == base })() {
 										boundOK = true
 									}
 								}
@@ -443,6 +443,14 @@ var ruleA5 = &Rule{
 					// (4) start derives from the scanned max(ver) of the same stream
 					okInit := false
 					if start != nil {
+						// the start value may be a parameter of the function holding the loop: continue at its call sites
+						paramBindings = map[*ssa.Parameter][]ssa.Value{}
+						autoBindParams = true
+						for _, site := range callSitesOf(c, loopFn) {
+							if call, ok := site.(*ssa.Call); ok {
+								bindCallParams(call, loopFn)
+							}
+						}
 						okInit = dependsOnValue(start, func(v ssa.Value) bool {
 							al, ok := v.(*ssa.Alloc)
 							if !ok || al.Referrers() == nil {
@@ -504,7 +512,7 @@ var ruleA5 = &Rule{
 													}
 												}
 											}
-											if qa == kV || canon(qa) == canon(kV) {
+											if qa == kV || canon(qa) == canon(kV) || sameFieldLoad(qa, kV) {
 												return true
 											}
 										}
@@ -513,6 +521,7 @@ var ruleA5 = &Rule{
 							}
 							return false
 						}, map[ssa.Value]bool{}, 0)
+						paramBindings, autoBindParams = nil, false
 					}
 					add("loop starts at the version recorded for this stream", okInit, w.Pos(),
 						"the loop must start from the value scanned from `SELECT max(ver) … WHERE k = <this stream>`; otherwise completed statements are re-run or pending ones skipped")
@@ -541,6 +550,19 @@ var ruleA5 = &Rule{
 		}
 		return obls
 	},
+}
+
+// sameFieldLoad: both values are loads of the same field of objects of one struct type (a run object's stream id read in two of
+// its methods).
+func sameFieldLoad(a, b ssa.Value) bool {
+	la, ok1 := a.(*ssa.UnOp)
+	lb, ok2 := b.(*ssa.UnOp)
+	if !ok1 || !ok2 || la.Op != token.MUL || lb.Op != token.MUL {
+		return false
+	}
+	fa, ok1 := la.X.(*ssa.FieldAddr)
+	fb, ok2 := lb.X.(*ssa.FieldAddr)
+	return ok1 && ok2 && fieldKey(fa.X.Type(), fa.Field) == fieldKey(fb.X.Type(), fb.Field)
 }
 
 func init() { register(ruleA5) }
